@@ -2,7 +2,7 @@
    harness/gen_posix.py) are the hand models, for ALL inputs. *)
 From Coq Require Import ZArith List Bool Lia.
 From V Require Import base.Cal posix.PTime posix.RDelta posix.TzParseModel posix.TzRangeModel
-     posix.PosixSpec posix.TzLocalModel posix.IcalModel posix.IcalConcModel gen.PosixGen.
+     posix.PosixSpec posix.TzLocalModel posix.PosixGenBase gen.PosixGen.
 Import ListNotations.
 Open Scope Z_scope.
 
@@ -70,6 +70,48 @@ Proof.
     try (repeat match goal with |- context [if ?b then _ else _] => destruct b end; reflexivity).
 Qed.
 
+(* ---- tzrange.__init__ / tzstr.__init__ ---- *)
+Lemma mk_delta_gen a dflt (dstabbr : bool) :
+  mk_delta a dflt dstabbr =
+  if dstabbr && darg_is_none a then rbind (rd_mk dflt) (fun r => Ok (DRd r)) else delta_of_darg a.
+Proof. destruct a; destruct dstabbr; reflexivity. Qed.
+
+Lemma gen_tzrange_init_eq sa so da do_ st en :
+  gen_tzrange_init sa so da do_ st en = tzrange_init sa so da do_ st en.
+Proof.
+  unfold gen_tzrange_init, tzrange_init. rewrite !mk_delta_gen. unfold default_start, default_end.
+  destruct so as [so|]; destruct do_ as [d|]; cbn [is_none negb];
+    destruct (truthy_str da); cbn [andb];
+    destruct (darg_is_none st); destruct (darg_is_none en);
+    repeat match goal with
+    | |- context [rd_mk ?x] => destruct (rd_mk x); cbn [rbind]
+    | |- context [delta_of_darg ?x] => destruct (delta_of_darg x); cbn [rbind]
+    end; try reflexivity; repeat (f_equal; try lia).
+Qed.
+
+Lemma gen_tzstr_init_eq s po : gen_tzstr_init s po = tzstr_init s po.
+Proof.
+  unfold gen_tzstr_init, tzstr_init, tzstr_of_res.
+  destruct (tzparse s) as [[r|]|e]; cbn [rbind]; try reflexivity.
+  destruct (r_unused r); [reflexivity|]. cbv zeta.
+  change (match r_stdabbr r with
+          | Some a_ => list_eqb a_ [71; 77; 84] || list_eqb a_ [85; 84; 67]
+          | None => false end) with (abbr_is_gmt_utc (r_stdabbr r)).
+  rewrite !gen_tzrange_init_eq. change (Z.opp 1) with (-1).
+  destruct (r_stdoffset r) as [v|]; [destruct (abbr_is_gmt_utc (r_stdabbr r) && negb po)|];
+  (match goal with |- context [tzrange_init ?a ?b ?c ?d AFalse AFalse] =>
+     destruct (tzrange_init a b c d AFalse AFalse) as [z|] eqn:Ez end;
+   cbn [rbind]; [|reflexivity]).
+  all: destruct (truthy_str (r_dstabbr r)); cbn [negb rbind]; [|reflexivity].
+  all: rewrite !gen_tzstr_delta_eq.
+  all: destruct (tzstr_delta (z_std_off z) (z_dst_off z) (r_start r) false) as [sd|]; cbn [rbind delta_bool];
+    [|reflexivity].
+  all: destruct (rd_bool sd) eqn:B; cbn [rbind];
+    [ destruct (tzstr_delta (z_std_off z) (z_dst_off z) (r_end r) true) as [ed|]; cbn [rbind delta_bool];
+      [rewrite ?B|]; reflexivity
+    | rewrite ?B; unfold tzrange_init in Ez; cbn [mk_delta rbind] in Ez; inversion Ez as [Hz]; try rewrite <- Hz; cbn [delta_bool]; rewrite ?B; reflexivity ].
+Qed.
+
 (* ---- tzlocal ---- *)
 Section Local.
   Variable libc : Z -> bool.
@@ -79,7 +121,7 @@ Section Local.
 
   Lemma gen_l_naive_is_dst_eq w :
     gen_l_naive_is_dst libc std alt daylight sn dn w = l_naive_is_dst libc std w.
-  Proof. unfold gen_l_naive_is_dst, l_naive_is_dst. f_equal. lia. Qed.
+  Proof. unfold gen_l_naive_is_dst, l_naive_is_dst. f_equal; lia. Qed.
 
   Lemma gen_l_is_ambiguous_eq w :
     gen_l_is_ambiguous libc std alt daylight sn dn w = l_is_ambiguous libc std alt daylight w.
@@ -104,19 +146,34 @@ Section Local.
   Proof. unfold gen_l_tzname, l_tzname. rewrite gen_l_isdst_eq. reflexivity. Qed.
 End Local.
 
-(* ---- _tzicalvtz ---- *)
-Lemma gen_find_compdt_eq cs c w f : gen_find_compdt cs c w f = find_compdt c w f.
-Proof. unfold gen_find_compdt, find_compdt. destruct ((c_diff c <? 0) && f); reflexivity. Qed.
 
-Lemma gen_ic_utcoffset_eq cs w f : gen_ic_utcoffset cs w f = ic_utcoffset cs w f.
-Proof. reflexivity. Qed.
+(* ---- grouped, for coq/props/C08.v ---- *)
+Lemma gen_tzrangebase_lemma :
+  (forall z, gen_dst_base_offset z = dst_base z) /\
+  (forall dt a b, gen_naive_isdst dt (a, b) = naive_isdst dt a b) /\
+  (forall z y, gen_transitions z y = transitions z y) /\
+  (forall z w, gen_is_ambiguous z w = is_ambiguous z w) /\
+  (forall z w f, gen_isdst z w f = isdst z w f) /\
+  (forall z w f, gen_utcoffset z w f = utcoffset z w f) /\
+  (forall z w f, gen_dst z w f = dst z w f) /\
+  (forall z w f, gen_tzname z w f = tzname z w f) /\
+  (forall z u, gen_fromutc z u = fromutc z u).
+Proof.
+  repeat split; intros;
+    first [apply gen_dst_base_offset_eq | apply gen_naive_isdst_eq | apply gen_transitions_eq
+          | apply gen_is_ambiguous_eq | apply gen_isdst_eq | apply gen_utcoffset_eq | apply gen_dst_eq
+          | apply gen_tzname_eq | apply gen_fromutc_eq].
+Qed.
 
-Lemma gen_ic_dst_eq cs w f : gen_ic_dst cs w f = ic_dst cs w f.
-Proof. reflexivity. Qed.
-
-Lemma gen_ic_tzname_eq cs w f : gen_ic_tzname cs w f = ic_tzname cs w f.
-Proof. reflexivity. Qed.
-
-(* the lock discipline the interleaving theorem assumes is the one the source has *)
-Lemma gen_lock_discipline : gen_cache_access_under_lock = true.
-Proof. reflexivity. Qed.
+Lemma gen_tzlocal_lemma : forall libc std alt daylight sn dn w f,
+  gen_l_naive_is_dst libc std alt daylight sn dn w = l_naive_is_dst libc std w /\
+  gen_l_is_ambiguous libc std alt daylight sn dn w = l_is_ambiguous libc std alt daylight w /\
+  gen_l_isdst libc std alt daylight sn dn w f = l_isdst libc std alt daylight w f /\
+  gen_l_utcoffset libc std alt daylight sn dn w f = l_utcoffset libc std alt daylight w f /\
+  gen_l_dst libc std alt daylight sn dn w f = l_dst libc std alt daylight w f /\
+  gen_l_tzname libc std alt daylight sn dn w f = l_tzname libc std alt daylight sn dn w f.
+Proof.
+  intros. repeat split;
+    first [apply gen_l_naive_is_dst_eq | apply gen_l_is_ambiguous_eq | apply gen_l_isdst_eq
+          | apply gen_l_utcoffset_eq | apply gen_l_dst_eq | apply gen_l_tzname_eq].
+Qed.
